@@ -51,3 +51,30 @@ Print Assumptions C17_log_is_holders_packets.
 Theorem C17_log_step_finishes_call : Ring.ProofsWriters.C17_log_step_finishes_call.
 Proof. exact Ring.ProofsWriters.log_step_finishes_call. Qed.
 Print Assumptions C17_log_step_finishes_call.
+
+From Proto Require PropsOrder ProofsOrder.
+
+(* the broker processes the complete packets of a chunk one after the other: the output of a chunk is the outputs of its packets, appended in order (any packets but DISCONNECT, which ends the connection) *)
+Theorem C17_proc_compositional : Proto.PropsOrder.C17_proc_compositional.
+Proof. exact Proto.ProofsOrder.proc_compositional. Qed.
+Print Assumptions C17_proc_compositional.
+
+(* PER-PUBLISHER ORDER: for QoS 0/1 PUBLISH packets p1..pn arriving on one connection the output is that of p1, then p2, ... pn *)
+Theorem C17_publisher_order : Proto.PropsOrder.C17_publisher_order.
+Proof. exact Proto.ProofsOrder.publisher_order. Qed.
+Print Assumptions C17_publisher_order.
+
+(* ... so every receiver gets the deliveries of p_i before those of p_j for i < j *)
+Theorem C17_receiver_order : Proto.PropsOrder.C17_receiver_order.
+Proof. exact Proto.ProofsOrder.receiver_order. Qed.
+Print Assumptions C17_receiver_order.
+
+(* ... explicitly: what a receiver is sent is, message by message in publication order, one delivery per matching subscription it holds *)
+Theorem C17_receiver_fields : Proto.PropsOrder.C17_receiver_fields.
+Proof. exact Proto.ProofsOrder.receiver_fields. Qed.
+Print Assumptions C17_receiver_fields.
+
+(* (the fuel the event driver gives proc always suffices) *)
+Theorem C17_fuel_enough : Proto.PropsOrder.C17_fuel_enough.
+Proof. exact Proto.ProofsOrder.fuel_enough. Qed.
+Print Assumptions C17_fuel_enough.
